@@ -651,6 +651,19 @@ Section Refine.
     - now apply SkInv_roundtrip.
   Qed.
 
+  Lemma SkInv_getters s t T x : SkInv s t T ->
+    sk_lb s x <= t x <= sk_ub s x /\
+    sk_lb s x <= sk_est s x <= sk_ub s x /\
+    sk_ub s x - sk_lb s x = sk_off _ s /\
+    sk_tot _ s = T.
+  Proof.
+    intros K.
+    pose proof (k_br s t T K x) as Hb. pose proof (k_off s t T K) as Ho. pose proof (lb_nonneg s t T x K) as Hl.
+    unfold FiDefs.sk_ub, FiDefs.sk_est. fold (sk_lb s x).
+    pose proof (k_tot s t T K) as Ht.
+    destruct (Z.ltb_spec 0 (sk_lb s x)); repeat split; try lia.
+  Qed.
+
   Theorem sk_bracket s t T x : SReach s t T ->
     sk_lb s x <= t x <= sk_ub s x /\
     sk_lb s x <= sk_est s x <= sk_ub s x /\
@@ -708,3 +721,40 @@ Proof.
   - apply andb_true_iff in H. destruct H as [H1 H2]. apply Z.eqb_eq in H1. apply IH in H2. congruence.
   - inversion H; subst. apply andb_true_iff. split; [apply Z.eqb_refl|now apply IH].
 Qed.
+
+(* ---------------- the order of the rows printed by the model (estimate descending) ---------------- *)
+Section SortRel.
+  Context {A : Type}.
+  Variable leb : A -> A -> bool.
+  Variable R : A -> A -> Prop.
+  Hypothesis R_trans : forall a b c, R a b -> R b c -> R a c.
+  Hypothesis leb_R : forall a b, leb a b = true -> R a b.
+  Hypothesis nleb_R : forall a b, leb a b = false -> R b a.
+
+  Lemma ins_sorted_rel x l : Sorted.StronglySorted R l -> Sorted.StronglySorted R (ins leb x l).
+  Proof.
+    induction l as [|y t IH]; simpl; intros H.
+    - constructor; constructor.
+    - inversion H as [|? ? Ht Hy]; subst. destruct (leb x y) eqn:E.
+      + constructor; auto. constructor; [now apply leb_R|].
+        rewrite Forall_forall in *. intros z Hz. eapply R_trans; [apply leb_R; exact E|auto].
+      + constructor; auto. rewrite Forall_forall in *. intros z Hz.
+        apply (Permutation_in _ (Permutation_sym (ins_perm leb x t))) in Hz.
+        destruct Hz as [<-|Hz]; [now apply nleb_R|auto].
+  Qed.
+
+  Lemma isort_sorted_rel l : Sorted.StronglySorted R (isort leb l).
+  Proof. induction l; simpl; [constructor|now apply ins_sorted_rel]. Qed.
+End SortRel.
+
+Theorem rows_by_est_sorted (off : Z) (l : list (cell item)) :
+  Sorted.StronglySorted (fun a b => cv _ b + off <= cv _ a + off) (rows_by_est l).
+Proof.
+  unfold rows_by_est. apply isort_sorted_rel.
+  - intros; lia.
+  - intros a b H. destruct (Z.ltb_spec (cv _ b) (cv _ a)); [lia|]. destruct (Z.ltb_spec (cv _ a) (cv _ b)); [discriminate|lia].
+  - intros a b H. destruct (Z.ltb_spec (cv _ b) (cv _ a)); [discriminate|lia].
+Qed.
+
+Lemma rows_by_est_perm (l : list (cell item)) : Permutation l (rows_by_est l).
+Proof. apply isort_perm. Qed.
